@@ -26,6 +26,7 @@ fn main() {
         "C09" => c09::run(&tier),
         "C10" => c10::run(&tier),
         "C11" => c11::run(&tier),
+        "C12" => c12::run(&tier),
         _ => {
             eprintln!("unknown property {}", id);
             2
